@@ -299,7 +299,8 @@ Proof. exact set_assembly_ignoretz. Qed.
 Print Assumptions C13_set_members_ignoretz.
 
 Theorem C13_member_rule_ignoretz : forall ev line st k, parse_rrule_kw false line = Ok k ->
-  parse_rule ev true line st = (if isNone (k_freq k) then Err EValue else ctor ev st (untz_kw k)).
+  parse_rule ev true line st =
+  (if isNone (k_freq k) then Err EValue else catch (ctor ev st (untz_kw k)) [EOverflow] EValue).
 Proof. exact parse_rule_ignoretz. Qed.
 Print Assumptions C13_member_rule_ignoretz.
 
@@ -357,11 +358,28 @@ Theorem C13_set_members : forall ev o names short its rr xr,
 Proof. exact set_assembly. Qed.
 Print Assumptions C13_set_members.
 
-(* unknown or malformed parts raise ValueError *)
-Theorem C13_unknown_part_valueerror : forall ig name value kw,
-  known name = false -> handle ig name value kw = Err EValue.
-Proof. exact unknown_part_valueerror. Qed.
+(* unknown or malformed parts raise ValueError.  The model keeps one constructor per Python exception
+   class: an unknown part name is an AttributeError of getattr, turned into ValueError by the first
+   except clause of _parse_rfc_rrule (catch_pair = the two except clauses) *)
+Theorem C13_unknown_part_valueerror : forall ig name value kw, known name = false ->
+  handle ig name value kw = Err EAttr /\ catch_pair (handle ig name value kw) = Err EValue.
+Proof. intros. split; [apply unknown_part_attributeerror|apply unknown_part_valueerror]; assumption. Qed.
 Print Assumptions C13_unknown_part_valueerror.
+
+(* every class a _handle_* method can raise is one of those the except clauses catch: ValueError (int(),
+   weekday(n=0), the empty BYDAY member, UNTIL after its own except (ValueError, OverflowError)), KeyError
+   (_freq_map / _weekday_map), AttributeError (no such handler) -- never IndexError / OverflowError / TypeError *)
+Theorem C13_handler_classes : forall ig name value kw e, handle ig name value kw = Err e ->
+  e = EValue \/ e = EKey \/ e = EAttr \/ e = EUnmodelled.
+Proof. exact handle_err. Qed.
+Print Assumptions C13_handler_classes.
+
+(* the constructor raises TypeError (no freq: unreachable from rrulestr since ec791d5), ValueError, or
+   OverflowError (datetime.time() with an hour / minute / second beyond 32 bits; caught since fb1f638) *)
+Theorem C13_ctor_error_classes : forall ev st kw e, ctor ev st kw = Err e ->
+  (e = EType /\ k_freq kw = None) \/ ((e = EValue \/ e = EOverflow) /\ k_freq kw <> None).
+Proof. exact ctor_err. Qed.
+Print Assumptions C13_ctor_error_classes.
 
 Theorem C13_parts_accepted_are_known : forall ig ps kw kw', handle_pairs ig ps kw = Ok kw' ->
   Forall (fun p => exists name value, split_on 61 p = [name; value] /\ known (upper name) = true) ps.
@@ -369,9 +387,11 @@ Proof. exact handle_pairs_ok_known. Qed.
 Print Assumptions C13_parts_accepted_are_known.
 
 (* malformed text: whatever rrulestr is given (ASCII, date values of the compact forms), an error is
-   a ValueError -- never TypeError / IndexError / KeyError / AttributeError.  (EUnmodelled = the text
-   leaves the modelled fragment; the implementation is then checked directly.)  Unguarded since the
-   fixes ec791d5 (missing FREQ) and a8bd79d (no RRULE line). *)
+   a ValueError -- never TypeError / IndexError / KeyError / AttributeError / OverflowError.  The proof
+   goes through the except clauses of the model (C13_handler_classes, C13_ctor_error_classes, the
+   OverflowError of an overlong digit string in UNTIL / a date value); C13_gen_error_classes below states
+   it on the regenerated code.  (EUnmodelled = the text leaves the modelled fragment; the implementation
+   is then checked directly.)  Unguarded since ec791d5 (missing FREQ), a8bd79d (no RRULE line), fb1f638. *)
 Theorem C13_rrulestr_error_classes : forall ev o s e, parse_rfc ev o s = RErr e -> ev_or_unmodelled e.
 Proof. exact rrulestr_error_classes. Qed.
 Print Assumptions C13_rrulestr_error_classes.
@@ -389,8 +409,9 @@ Print Assumptions C13_empty_valueerror.
    Python AST of /repo/src/dateutil/rrule.py (fail-closed; accepted subset and call table in its
    header and in notes/rstr.md).  The theorems below say that the translated code IS the hand model
    the theorems above are about.  A change of the translated methods changes gen_* and breaks these
-   obligations; a change outside the accepted subset, or of the AST-pinned hand-modelled methods
-   (_parse_date_value, _parse_date), aborts the translator and poisons RstrGen.v. *)
+   obligations; a change outside the accepted subset aborts the translator and poisons RstrGen.v.
+   Exception classes are kept apart on both sides (gres_res / g_of_res / result_of_gres are one to one), so
+   these equalities depend on every except clause of the translated code. *)
 From V Require Import rstr.RstrGenBase gen.RstrGen rstr.RstrGenThm rstr.RstrGenThm2.
 
 (* _freq_map / _weekday_map (dict literals of the class) and FREQNAMES *)
@@ -402,7 +423,8 @@ Print Assumptions C13_gen_tables.
 
 (* one BYDAY member as _handle_BYWEEKDAY reads it (the '(' form, the index scan, weekdays[..](n)) *)
 Theorem C13_gen_handle_BYWEEKDAY : forall ig name value kw,
-  gopt (gen_handle_BYWEEKDAY ig name value kw) = option_map (fun l => set_byweekday l kw) (wd_list value).
+  gres_res (gen_handle_BYWEEKDAY ig name value kw) =
+  match wd_list value with Some l => Ok (set_byweekday l kw) | None => Err (wd_list_class value) end.
 Proof. exact gen_handle_BYWEEKDAY_spec. Qed.
 Print Assumptions C13_gen_handle_BYWEEKDAY.
 
@@ -425,8 +447,14 @@ Print Assumptions C13_gen_parse_rfc_rrule.
 
 Theorem C13_gen_parse_rule : forall ev ig line st,
   parse_rule ev ig line st =
-  match gres_res (gen_parse_rfc_rrule ig line) with Ok kw => ctor ev st kw | Err e => Err e end.
+  match gres_res (gen_parse_rfc_rrule ig line) with
+  | Ok kw => catch (ctor ev st kw) [EOverflow] EValue | Err e => Err e end.
 Proof. exact gen_parse_rule_spec. Qed.
+Print Assumptions C13_gen_parse_rule.
+
+(* the translated call rrule(...) with its except clause (gen_rule) is that rule *)
+Theorem C13_gen_rule : forall ev ig line st, gres_res (gen_rule ev ig line st) = parse_rule ev ig line st.
+Proof. exact gen_rule_spec. Qed.
 Print Assumptions C13_gen_parse_rule.
 
 (* rrule.__str__ *)
@@ -434,9 +462,8 @@ Theorem C13_gen_to_str : forall r, gen_to_str r = to_str r.
 Proof. exact gen_to_str_spec. Qed.
 Print Assumptions C13_gen_to_str.
 
-(* _parse_date: parser.parse with OverflowError turned into ValueError (the compact date forms of the
-   model never overflow) *)
-Theorem C13_gen_parse_date : forall ig x, gen_parse_date ig x = g_parse ig x.
+(* _parse_date: parser.parse with OverflowError (an overlong digit string) turned into ValueError *)
+Theorem C13_gen_parse_date : forall ig x, gres_res (gen_parse_date ig x) = parse_date_method ig x.
 Proof. exact gen_parse_date_spec. Qed.
 Print Assumptions C13_gen_parse_date.
 
@@ -457,3 +484,11 @@ Theorem C13_gen_parse_rfc : forall ev o s, forallb is_ascii s = true ->
   result_of_gres (gen_parse_rfc ev o s) = parse_rfc ev o s.
 Proof. exact gen_parse_rfc_spec. Qed.
 Print Assumptions C13_gen_parse_rfc.
+
+(* the error classes of the REGENERATED rrulestr: a ValueError, or the text left the modelled fragment.
+   Depends on every handler of the translated code: _handle_UNTIL's (ValueError, OverflowError), the two
+   except clauses around the handler call, the one around rrule(...), _parse_date's OverflowError. *)
+Theorem C13_gen_error_classes : forall ev o s e, forallb is_ascii s = true ->
+  gen_parse_rfc ev o s = GExc e -> e = XValue \/ e = XUnm.
+Proof. exact gen_error_classes. Qed.
+Print Assumptions C13_gen_error_classes.
